@@ -21,7 +21,9 @@ try:
     for commit, pid in pairs:
         if only and commit not in only and pid not in only:
             continue
-        r = subprocess.run("git show %s | git apply -R" % commit, shell=True, cwd=root + "/repo", stdout=subprocess.PIPE, stderr=subprocess.STDOUT, text=True)
+        manual = "/verif/seeded/reverts/%s.diff" % commit
+        cmd = "git apply %s" % manual if os.path.exists(manual) else "git show %s | git apply -R" % commit
+        r = subprocess.run(cmd, shell=True, cwd=root + "/repo", stdout=subprocess.PIPE, stderr=subprocess.STDOUT, text=True)
         if r.returncode != 0:
             res[commit + ":" + pid] = {"error": "does not revert cleanly: " + r.stdout[-200:]}
             print(commit, pid, "DOES NOT REVERT CLEANLY", r.stdout[-200:], flush=True)
